@@ -2087,12 +2087,12 @@ def _lower_sym(ex, c, a, dt):
             out.append(z3.simplify(z3.If(z3.And(z3.UGE(b, 97), z3.ULE(b, 122)), b - 32, b)))
     return SymBytes(out)
 
-_starts_plain = NATIVES[('str', 'starts_with')]
+_starts_plain = {m_: NATIVES[('str', m_)] for m_ in ('starts_with', 'ends_with', 'contains')}
 @native(('str', 'starts_with'), ('str', 'ends_with'), ('str', 'contains'))
 def _starts_sym(ex, c, a, dt):
     sb = _symbytes(a[0])
     if sb is None:
-        return _starts_plain(ex, c, a, dt)
+        return _starts_plain[c.method](ex, c, a, dt)
     p = deref(a[1])
     if isinstance(p, int): p = chr(p)
     if not isinstance(p, str):
@@ -2122,5 +2122,21 @@ def _is_empty_sym(ex, c, a, dt):
     if sb is not None:
         return len(sb.bs) == 0
     if _is_empty_plain is None:
-        return len(as_str(a[0])) == 0
+        return binop('Eq', NATIVES[('str', 'len')](ex, c, a, dt), 0, 'usize')
     return _is_empty_plain(ex, c, a, dt)
+
+@native(('Argument', 'from_usize'))
+def _arg_from_usize(ex, c, a, dt):
+    """a dynamic width / precision argument of format!: carries the number itself"""
+    return Opaque('Argument', deref(a[0]))
+
+@native(('slice', 'windows'))
+def _windows(ex, c, a, dt):
+    its = items(a[0])
+    n_ = concrete_int(ex, a[1])
+    if n_ == 0:
+        raise Panic('window size must be non-zero')
+    base = deref(a[0])
+    vec = base.vec if type(base) is SliceV else base
+    lo = base.lo if type(base) is SliceV else 0
+    return ListIt([Ref(Cell(SliceV(vec, lo + i, lo + i + n_))) for i in range(max(0, len(its) - n_ + 1))])
